@@ -28,7 +28,7 @@ BODY_DOC = {
     'VFA': 'vorbisfile on s1: open, info, ov_read, pcm_seek, read, halfrate, read, time_seek, read_float, clear',
     'VFB': 'vorbisfile on s2: ov_read_float, pcm_seek, halfrate, pcm_seek_lap, ov_read, clear',
     'VFF': 'vorbisfile on the floor-0 stream (raw_seek)', 'VFC': 'vorbisfile on the 2-link chain s1+s2',
-    'ENCM': 'encoder stereo 44.1k managed with a hard MINIMUM (96 kbit/s, 8000-bit reservoir via RATEMANAGE2_SET) on a tone followed by digital silence: packets are zero-padded up to the floor',
+    'ENCM': 'encoder stereo 44.1k managed with a hard MINIMUM (96 kbit/s, 8000-bit reservoir via RATEMANAGE2_SET) on a tone followed by near silence (1e-5 sine): packets are zero-padded up to the floor',
     'DECL': 'packet decoder on coupled stereo with a digitally silent LEFT channel (unused floor on one side of a coupled pair)',
     'DECR': 'packet decoder on coupled stereo with a digitally silent RIGHT channel, with synthesis_restart',
     'VFL': 'vorbisfile (ov_read_float) on the left-silent stream', 'VFR': 'vorbisfile (ov_read, pcm_seek_lap) on the right-silent stream',
